@@ -84,6 +84,14 @@ type playDef struct {
 	// Cleanup behaviour: fail at n-th run (0 never), hang at n-th run (0 never)
 	CleanFailAt int
 	CleanHangAt int
+	CleanSlowAt int // the n-th cleanup run of every actor takes 2 s (0 = none)
+	// SigAfterRaw: like SigAfter, for an arbitrary ledger substring
+	SigAfterRaw string
+	// Sig2AfterMs: send the signal a second time that long after the first (0 = no)
+	Sig2AfterMs int
+	// ExcuseSurvivor: command line of a process the play cannot reach (another session) and
+	// that the harness kills afterwards
+	ExcuseSurvivor string
 	CleanActor  string // which actor's cleanup misbehaves ("" = all)
 	Audience    []string
 	Flags       []string
@@ -137,6 +145,9 @@ func (p *playDef) render(ledger string) string {
 		body := ""
 		if p.CleanFailAt > 0 {
 			body += fmt.Sprintf(" if [ $n = %d ] && [ \"$CLBAD\" = 1 ]; then rc=4; fi;", p.CleanFailAt)
+		}
+		if p.CleanSlowAt > 0 {
+			body += fmt.Sprintf(" if [ $n = %d ]; then sleep 2; fi;", p.CleanSlowAt)
 		}
 		if p.CleanHangAt > 0 {
 			body += fmt.Sprintf(" if [ $n = %d ] && [ \"$CLBAD\" = 1 ]; then sleep 300; fi;", p.CleanHangAt)
@@ -240,6 +251,7 @@ type observation struct {
 	SpotGrace        map[string]int64
 	Csv              []csvRow
 	Survivors        []survivor
+	Excused          []survivor // processes in another session, out of the play's reach
 	Output           string
 	BadLedgerLines   []string
 }
@@ -321,13 +333,16 @@ func runPlay(shk string, p *playDef, idx int) (obs observation, cfgText string) 
 	done := make(chan error, 1)
 	go func() { done <- c.Wait() }()
 	var sigCh <-chan time.Time
-	if p.Sig != 0 && p.SigAfter == "" {
+	if p.Sig != 0 && p.SigAfter == "" && p.SigAfterRaw == "" {
 		sigCh = time.After(time.Duration(p.SigAtMs) * time.Millisecond)
 	} else if p.Sig != 0 {
 		ch := make(chan time.Time, 1)
 		sigCh = ch
 		go func() {
 			want := " A " + p.SigAfter + " 1 S "
+			if p.SigAfterRaw != "" {
+				want = p.SigAfterRaw
+			}
 			for i := 0; i < 7000; i++ {
 				if data, err := ioutil.ReadFile(ledger); err == nil && strings.Contains(string(data), want) {
 					break
@@ -339,6 +354,7 @@ func runPlay(shk string, p *playDef, idx int) (obs observation, cfgText string) 
 		}()
 	}
 	bound := time.After(boundSec * time.Second)
+	secondSent := false
 	var werr error
 loop:
 	for {
@@ -347,8 +363,15 @@ loop:
 			obs.Exited = true
 			break loop
 		case <-sigCh:
-			obs.SigSentNs = time.Now().UnixNano()
+			if obs.SigSentNs == 0 {
+				obs.SigSentNs = time.Now().UnixNano()
+			}
 			c.Process.Signal(syscall.Signal(p.Sig))
+			sigCh = nil
+			if p.Sig2AfterMs > 0 && !secondSent {
+				secondSent = true
+				sigCh = time.After(time.Duration(p.Sig2AfterMs) * time.Millisecond)
+			}
 		case <-bound:
 			// did not terminate within the bound: kill it and everything it started
 			c.Process.Kill()
@@ -385,7 +408,11 @@ loop:
 		}
 		for _, x := range s1 {
 			if in2[x.Pid] {
-				obs.Survivors = append(obs.Survivors, x)
+				if p.ExcuseSurvivor != "" && x.Cmd == p.ExcuseSurvivor {
+					obs.Excused = append(obs.Excused, x)
+				} else {
+					obs.Survivors = append(obs.Survivors, x)
+				}
 			}
 		}
 	}
@@ -527,6 +554,13 @@ func genScript(rng *rand.Rand, p *playDef, maxActs, maxCols int) {
 			nSteps := 1 + rng.Intn(3)
 			for k := 0; k < nSteps; k++ {
 				name := fmt.Sprintf("%s%ds%d", sd.Char, e, k)
+				if k >= 1 && rng.Intn(3) == 0 {
+					// an action whose name differs from the previous step's only by letter case
+					name = strings.ToUpper(fmt.Sprintf("%s%ds%d", sd.Char, e, k-1))
+					if k >= 2 && ed.Steps[k-1].Action == name {
+						name = fmt.Sprintf("%s%ds%d", sd.Char, e, k)
+					}
+				}
 				d := durChoices[rng.Intn(len(durChoices))]
 				if d > 450 {
 					d = 450
@@ -1115,6 +1149,23 @@ func genC07(rng *rand.Rand, tier string) []*playDef {
 		p.Sig, p.SigAtMs = sig, 150+rng.Intn(300)
 		add(p, "spotlight-ignores-hup-leader-signal", sname)
 	}
+	// 6d. a signal while the INITIAL cleanups (2 s each) are still running: both cleanup
+	// passes must still happen.
+	for _, sig := range []int{int(syscall.SIGINT), int(syscall.SIGTERM)} {
+		p := baseC07("")
+		p.CleanSlowAt = 1
+		p.Sig, p.SigAtMs, p.SigAfterRaw = sig, 300+rng.Intn(800), " C 1 S "
+		add(p, "signal-during-initial-cleanup", map[int]string{int(syscall.SIGINT): "sigint", int(syscall.SIGTERM): "sigterm"}[sig])
+	}
+	// 6e. a spotlight with a descendant in ANOTHER session (setsid) that inherited its
+	// output and outlives it: the play cannot kill it (the harness does, afterwards), but
+	// it must not keep the play from ending.
+	{
+		p := baseC07("")
+		p.Spot["x2"] = "setsid sleep 100 & sleep 300"
+		p.ExcuseSurvivor = "sleep 100"
+		add(p, "spotlight-setsid-child-holds-pipe", "-")
+	}
 	// 7. commands that outlive their scene (sleep 300) while the play is stopped:
 	// the known finding "running-action-or-cleanup-not-interruptible" makes these slow
 	// (60 s hard limit, or the harness' own bound), so few of them in the quick tier.
@@ -1139,6 +1190,13 @@ func genC07(rng *rand.Rand, tier string) []*playDef {
 			p.Audience = []string{"bob watches x1 v", "bob expects always: [x1 v] < 5"}
 			p.Flags = []string{"-S"}
 		}},
+	}
+	{
+		// a second SIGINT during the (stuck) shutdown must end the process at once
+		p := baseC07("")
+		p.action("b1s0").Hang = true
+		p.Sig, p.SigAtMs, p.SigAfter, p.Sig2AfterMs = int(syscall.SIGINT), 100, "b1s0", 2000
+		add(p, "action-hangs-two-sigints", "b1s0")
 	}
 	nslow := len(slows)
 	if quick {
@@ -1346,7 +1404,8 @@ var faultKinds = []string{"none", "action-fails", "spotlight-fails", "spotlight-
 	"spotlight-ignores-hup-bgchild", "cleanup-fails-1", "cleanup-fails-2", "audit-foul-S", "expr-error", "expr-error-S",
 	"sigint", "sigterm", "action-hangs-sigint", "cleanup-hangs-1", "action-hangs-peer-fails", "action-hangs-sigterm",
 	"cleanup-hangs-2", "action-hangs-spotlight-fails", "action-hangs-audit-foul-S", "spotlight-graceful-hup", "audit-foul-S-chatty-long-action",
-	"signal-during-action", "signal-during-action-no-spotlights", "spotlight-ignores-hup-leader-signal"}
+	"signal-during-action", "signal-during-action-no-spotlights", "spotlight-ignores-hup-leader-signal",
+	"signal-during-initial-cleanup", "spotlight-setsid-child-holds-pipe", "action-hangs-two-sigints"}
 
 func faultIdx(f string) int {
 	for i, k := range faultKinds {
@@ -1409,9 +1468,13 @@ func coqFaultCase(c *caseOut) string {
 	for _, t := range o.SpotGrace {
 		grace = t
 	}
-	return fmt.Sprintf("mkFcase %d %d %s %s %s %s %s %s %s %s %s %s %d",
+	afterSig := int64(-1)
+	if o.SigSentNs > 0 {
+		afterSig = (o.ExitNs - o.SigSentNs) / 1e6
+	}
+	return fmt.Sprintf("mkFcase %d %d %s %s %s %s %s %s %s %s %s %s %s %d",
 		faultIdx(c.Def.Fault), sig, vh.Bool(o.Exited), vh.Z(o.WallMs), vh.Z(int64(o.Exit)),
-		vh.List(per), vh.List(acts), vh.List(spots), vh.Z(o.SigSentNs), vh.Z(mark), vh.Z(totalWait), vh.Z(grace), len(o.Survivors))
+		vh.List(per), vh.List(acts), vh.List(spots), vh.Z(o.SigSentNs), vh.Z(mark), vh.Z(totalWait), vh.Z(grace), vh.Z(afterSig), len(o.Survivors))
 }
 
 func main() {
